@@ -3,6 +3,7 @@ import XV.Lemmas.FormatterInst
 import XV.Model.Serializer
 namespace XV.Lemmas.Serializer
 open XV.Model.Formatter XV.Model.Cdata XV.Model.Serializer XV.Gen.Escapes
+open XV.Spec.Escaping
 open XV.Spec.Unescape (legalUnits isChar10 isChar11 isRestricted11 refOK highSurr lowSurr parseText parseAttr)
 open XV.Lemmas.Formatter
 
